@@ -63,8 +63,8 @@ ENGINES.append(
      'kind_free_text': 'seeded interleaving of 1-3 logical clients over shared and private library objects (real pgradd end to end), transient file faults on loads through a pass-through open() seam, fresh-process oracle by fork of a pristine zygote (two-level: per library lineage), state-digest invariants after every step'})
 
 check('C15', 'history sim',
-      'Seeded search over operation histories (load / decompose / estimate from any earlier decomposition / evaluate with and without the elemental reference / merge / re-load / failing operations / loads under injected file faults), interleaved over 1-3 clients that share or own library objects. Every observation is compared with the same minimal chain computed first in a fresh process, and after every step every live library, every descriptor mapping held by a client and the process-wide registries are digested and must be unchanged. Sampling over histories: a clean batch is evidence, not proof.',
-      'Trusts fork() of a just-imported interpreter as "fresh process" (a sample of reference values is recomputed in genuinely new interpreters under another hash seed on every run); operations are atomic scheduler steps (no pre-emption inside an operation); histories <= 40 operations, <= 3 live libraries, <= 2 merges per object.',
+      'Seeded search over operation histories (load / make a library with the public constructor / decompose / estimate from any earlier decomposition, also from a plain copy of the mapping / evaluate with and without the elemental reference, repeated later / group evaluation / Mapping API / merge / re-load / change of the data-directory override / failing operations / loads under injected faults on any file of the include closure), plus fixed observe-merge-observe histories for library pairs; each history runs in its own fresh forked process, interleaved over 1-3 clients that share or own library objects. Every observation is compared with the same minimal chain computed first in a fresh process, and after every step every live library, every descriptor mapping held by a client and the process-wide registries are digested and must be unchanged. Sampling over histories: a clean batch is evidence, not proof.',
+      'One open known finding (S_elements of an estimate made from a plain dict copy of the descriptors, see known_findings.json) is printed as KNOWN-FINDING and its two example histories are replayed on every run. Trusts fork() of a just-imported interpreter as "fresh process" (a sample of reference values is recomputed in genuinely new interpreters under another hash seed on every run); operations are atomic scheduler steps (no pre-emption inside an operation); histories <= 40 operations, <= 3 live libraries, <= 2 merges per object.',
       'deterministic simulation: seeded scheduler over client histories + fault injection on loads, checked against fresh-process references and state-digest invariants',
       'DESIGN.md 3.4')
 
@@ -75,19 +75,19 @@ ENGINES.append(
      'kind_free_text': 'real loader / merger / writer over an in-memory file system (SimFS behind the module globals open/os of Library, Scheme, DataDir) with a fault plan (lost file, EACCES, EIO on open, EIO on read, transient errors, injected conflicts, double spellings, missing units); seeded worlds (include trees, unit presentations) and operation histories; hand-written reference model of union/conflict/hull'})
 
 check('C13', 'library-store sim',
-      'Seeded search over multi-file stores and merge histories: the data of a few groups are split over an include tree (data may repeat across files), then loads, include permutations and re-nestings, library and correlation merges with/without overwrite, repeated merges, and injected faults (conflicting datum, double spelling, lost/unreadable files, transient I/O errors) are run against the real loader through an in-memory file system and against a small reference model (union, conflict unless overwrite, hull of ranges). Checked after every step: field-level refinement, evaluation equal to a single-file rendering, order-independence, idempotence, bit-identical target after a rejected correlation merge, untouched bystander libraries and merge sources, no library returned under an I/O fault. Sampling, not proof.',
+      'Seeded search over multi-file stores and merge histories: the data of a few groups are split over an include tree (data may repeat across files), then loads, include permutations, re-nestings and diamonds (a file included twice), library and correlation merges with/without overwrite, repeated merges, and injected faults (conflicting datum, double spelling, damaged Cp row, lost/unreadable files, transient I/O errors; every load that must fail is retried once) are run against the real loader through an in-memory file system and against a small reference model (union, conflict unless overwrite, hull of ranges). Checked after every step: field-level refinement, evaluation equal to a single-file rendering, order-independence, idempotence, bit-identical target after a rejected correlation merge, untouched bystander libraries and merge sources, no library returned under an I/O fault. Sampling, not proof.',
       'Trusts the reference model (storegen.py) as the meaning of "union"; worlds share one reference temperature (as the property states), <= 8 groups, <= 6 files, depth <= 3, <= 25 operations; library-level merge is not required to be atomic (only the correlation-level clause is stated).',
       'deterministic simulation: in-memory file system with fault plan + seeded merge histories, refinement against a reference model after every step',
       'DESIGN.md 3.2')
 
 check('C12', 'library-store sim',
-      'Seeded search over unit presentations of one abstract world: file-level default-unit blocks (different per file, parent vs include), explicit unit strings with SI prefixes, non-dimensional keys and mixtures, per-file temperature units; each presentation is loaded through the in-memory file system and compared field by field with the model and pairwise on a temperature grid; every returned value must be a plain number; a file whose dimensional value is left without any unit (fault) must be rejected. Sampling, not proof.',
+      'Seeded search over unit presentations of one abstract world: file-level default-unit blocks (different per file, parent vs include), explicit unit strings with SI prefixes, non-dimensional keys and mixtures, numbers spelled plain / in exponent notation / quoted, many spellings of one unit, per-file temperature units; each presentation is loaded through the in-memory file system and compared field by field with the model and pairwise on a temperature grid; every returned value must be a plain number; a file whose dimensional value is left without any unit, or with a unit string nobody can evaluate (faults), must be rejected, also on a retry, and the good file must load unchanged afterwards. Sampling, not proof.',
       'Trusts the harness unit factors (cal = 4.184 J, eV, Avogadro, prefixes, R = 8.314472) and its exact decimal rendering; each datum appears once per world so that cross-presentation equality is the only question asked; prefixed temperature units only where the conversion is exact.',
       'deterministic simulation: in-memory file system, per-file unit context as cross-file state, missing-unit fault injection, model refinement',
       'DESIGN.md 3.2')
 
 check('C18', 'library-store sim',
-      'Write-then-read through the store: correlations loaded from seeded worlds (absent parts, zero-valued parts, large/small magnitudes) are formatted with yaml_format in random unit choices and read back both directly and embedded as a group entry of a library file in the in-memory file system; fields must agree exactly (non-dimensional) or to six significant digits (dimensional, temperatures). Every group of every shipped library is exported in 4 unit sets x 2 temperature units (that finite part is exhaustive in the thorough tier, strided in quick).',
+      'Write-then-read through the store: correlations loaded from seeded worlds (absent parts, zero-valued parts, large/small magnitudes) are formatted with yaml_format in random unit choices, mutated between two exports in the same units (del_ND_H_ref, del_ND_S_ref, set_range, del_ND_Cp, update with and without overwrite - the latter usually rejected), and read back both directly and embedded as a group entry of a library file in the in-memory file system; fields must agree exactly (non-dimensional) or to six significant digits (dimensional, temperatures). Every group of every shipped library is exported in 4 unit sets x 2 temperature units (that finite part is exhaustive in the thorough tier, strided in quick).',
       'Trusts the comparison tolerances (6e-6 relative for six written digits); the embedded read-back uses a fixed indentation and group name.',
       'deterministic simulation: write-then-read (durability) over an in-memory file system; exhaustive over shipped groups',
       'DESIGN.md 3.2')
@@ -99,7 +99,7 @@ ENGINES.append(
      'kind_free_text': 'real loaders on the real shipped YAML held in an in-memory file system (bundled location and/or relocated copies), simulated environment variable, one forked process per process lifetime (restart), copy faults (file lost / EACCES / EIO on open / EIO on read); the self-consistency sweep runs as the invariant after loading; a real-file-system tier in new interpreters cross-checks the stubs'})
 
 check('C14', 'locate/restart sim',
-      'Fault enumeration and seeded histories over the ways of locating a shipped library: the fixed matrix 9 libraries x {by name, by explicit path, relocated copy selected through the override with the bundled directory absent} is exhaustive, each in its own process lifetime, with identical content digests demanded; seeded scenarios interleave loads, changes of the override and restarts; copy faults make one file of the relocated tree lost or unreadable (every file in the thorough tier) - the load must then fail or, if the file is outside the include closure, succeed with identical contents, and succeed identically after the fault is cleared and the process restarted. The self-consistency clause (every group finite plain numbers over its range, patterns re-readable, remaps well-formed and chain-free, uncertainty block square/symmetric/PSD/sized, basis descriptors with data) is an exhaustive sweep over the shipped data after loading. A real-file-system tier (scratch copy, new interpreters, real pgradd_DATA_DIR) cross-checks the in-memory stubs.',
+      'Fault enumeration and seeded histories over the ways of locating a shipped library: the fixed matrix 9 libraries x {by name, by explicit path, relocated copy selected through the override with the bundled directory absent} is exhaustive, each in its own process lifetime, with identical content digests demanded; seeded scenarios interleave loads by name / absolute path / relative path (with chdir), changes of the override (also to a directory that does not exist, and back) and restarts; fixed scenarios cover recover-after-wrong-override and relative-path sequences; content digests are also compared across hash-seed cells; copy faults make one file of the relocated tree lost or unreadable (every file in the thorough tier) - the load must then fail or, if the file is outside the include closure, succeed with identical contents, and succeed identically after the fault is cleared and the process restarted. The self-consistency clause (every group finite plain numbers over its range, patterns re-readable, remaps well-formed and chain-free, uncertainty block square/symmetric/PSD/sized, basis descriptors with data) is an exhaustive sweep over the shipped data after loading. A real-file-system tier (scratch copy, new interpreters, real pgradd_DATA_DIR) cross-checks the in-memory stubs.',
       'Trusts the SimFS os/open shim (cross-checked against the real file system on every run); restart = fork of a process that never resolved the data directory; a change of the override after the first resolution may or may not be honoured (not stated by the property).',
       'deterministic simulation: in-memory file system + simulated environment + process restart by fork, copy-fault enumeration, exhaustive sweep of shipped data as invariant',
       'DESIGN.md 3.3')
@@ -111,7 +111,7 @@ ENGINES.append(
      'kind_free_text': 'real GenerateRxnNet + RDKit reactions (rules as reaction SMARTS or RING text) under a simulated step clock restricted to GenRxnNet.py/ReactionQuery.py; schedules perturbed by rule order, seed order and seed atom order; reference closure by BFS over hand-rolled labelled multigraphs'})
 
 check('C17', 'work-list sim',
-      'Schedule search over the work list: each (seed set, rule set) is run under several schedules (every order of the rules for the small exhaustive part; seeded rule/seed/atom orders and SMARTS-vs-RING rule texts for larger ones) under a deterministic step clock. Every call must terminate within a budget derived from the size of the reference closure (overruns are re-run at 20x before being reported), return each species once, contain every seed, equal the independent breadth-first closure exactly, and return the same set under every schedule. The part over seeds with <= 2 heavy atoms is exhaustive; the rest is sampling.',
+      'Schedule search over the work list: each (seed set, rule set) is run under several schedules (every order of the rules for the small exhaustive part; seeded rule/seed/atom orders and SMARTS-vs-RING rule texts for larger ones) under a deterministic step clock. Failing calls (unreadable rule text, a rule that fails midway on the seed) are placed between the schedules of a network: they must raise and must leave nothing behind. Every other call must terminate within a budget derived from the size of the reference closure (overruns are re-run at 20x before being reported), return each species once, contain every seed, equal the independent breadth-first closure exactly, and return the same set under every schedule. The part over seeds with <= 2 heavy atoms is exhaustive; the rest is sampling.',
       'Trusts the reference closure (netmodel.py) as the meaning of the rules on acyclic C/H/O species with explicit hydrogens; seeds are distinct (a set) and acyclic; the step clock does not see RDKit (C++), a hang inside it would surface as a harness error by the wall-clock kill-switch.',
       'deterministic simulation: simulated step clock (bounded liveness) + schedule perturbation of the work list, refinement against a BFS reference closure',
       'DESIGN.md 3.5')
